@@ -868,9 +868,26 @@ only the station whose turn it is transmits (no claim, retry or reply); every tr
 GAP request to a non-member address (the turn stays) or the token to the cyclic successor in the ascending
 member list (the turn passes to it: `ascending_rotation`).  (`GoodRunN`.) -/
 theorem n_station_ring_run (cfg : Cfg) (hok : cfg.Ok) (hP100 : cfg.P ≤ 100000) (M : List Nat) (adr : Nat → Nat)
-    (n : Net) (v : NView) (h : NInv cfg M adr n v) (evs : List (Nat × Int)) (hs : SchedN cfg.P n v.tl evs) :
+    (n : Net) (v : NView) (h : NInv cfg M adr n v) (hna : NoApps n) (hpl : v.ph.plain)
+    (evs : List (Nat × Int)) (hs : SchedN cfg.P n v.tl evs) :
     GoodRunN cfg M adr n (v.turn M adr) (cEnd cfg v.tr) evs :=
-  ringN_run hok hP100 M adr evs n v h hs
+  ringN_run hok hP100 M adr evs n v h hna hpl hs
+
+/-- **`n_station_ring_run_apps`** — the same WITH application traffic: every station has an arbitrary list of
+applications with arbitrary scripts whose telegrams satisfy `AppP` (destination and source address below 128,
+anything but an FDL status request — requests with or without reply, to member addresses, which do not
+answer application requests, or to absent addresses) and the encoder's length limit (`ScriptsOk`, in the
+station invariant).  Inside a token hold the holder sends application telegrams (`holdT`: no reply expected,
+the hold continues after the synchronisation pause; `await a`: the reply never comes, after the slot time the
+application gets its `timeout` and the hold continues in the same poll), then a GAP request or the token, as
+the hold-time logic decides.  For every schedule and every length of run: every poll returns regularly, only
+the station whose turn it is transmits, every transmission starts at least 33 bit times after the end of the
+previous one (strictly later after another station's transmission), the token goes round in ascending
+cyclic order, nobody claims, retries or replies (`GoodRunA`). -/
+theorem n_station_ring_run_apps (cfg : Cfg) (hok : cfg.Ok) (hP100 : cfg.P ≤ 100000) (M : List Nat) (adr : Nat → Nat)
+    (n : Net) (v : NView) (h : NInv cfg M adr n v) (evs : List (Nat × Int)) (hs : SchedN cfg.P n v.tl evs) :
+    GoodRunA cfg M adr n (v.turn M adr) (cEnd cfg v.tr) v.tr.sender evs :=
+  ringA_run hok hP100 M adr evs n v h hs
 
 /-- The invariant holds again after every scheduled run. -/
 theorem n_station_ring_inv (cfg : Cfg) (hok : cfg.Ok) (hP100 : cfg.P ≤ 100000) (M : List Nat) (adr : Nat → Nat)
@@ -966,9 +983,9 @@ theorem ringCfg3 : RingCfg M3 adr3 3 :=
       rcases hi' with rfl | rfl | rfl <;> rcases hj' with rfl | rfl | rfl <;> simp [adr3, M3] at he ⊢),
     by decide, by decide⟩
 
-theorem stok3a : StOkN cfg2 M3 ns3a 3 := ⟨rfl, rfl, rfl, s3a_inv, rfl, rfl, rfl, rfl, ring3_view 3 (by decide), by decide⟩
-theorem stok3b : StOkN cfg2 M3 ns3b 5 := ⟨rfl, rfl, rfl, s3b_inv, rfl, rfl, rfl, rfl, ring3_view 5 (by decide), by decide⟩
-theorem stok3c : StOkN cfg2 M3 ns3c 7 := ⟨rfl, rfl, rfl, s3c_inv, rfl, rfl, rfl, rfl, ring3_view 7 (by decide), by decide⟩
+theorem stok3a : StOkN cfg2 M3 ns3a 3 := ⟨rfl, rfl, (fun s hs => by cases hs), s3a_inv, rfl, rfl, rfl, rfl, ring3_view 3 (by decide), by decide⟩
+theorem stok3b : StOkN cfg2 M3 ns3b 5 := ⟨rfl, rfl, (fun s hs => by cases hs), s3b_inv, rfl, rfl, rfl, rfl, ring3_view 5 (by decide), by decide⟩
+theorem stok3c : StOkN cfg2 M3 ns3c 7 := ⟨rfl, rfl, (fun s hs => by cases hs), s3c_inv, rfl, rfl, rfl, rfl, ring3_view 7 (by decide), by decide⟩
 
 theorem tok3_not (j : Nat) (hj : adr3 j ≠ 5) (hj' : adr3 j < 256) : ∀ a, tok3.bytes ≠ StationGap.tokenBytes (adr3 j) a := by
   intro a hb
@@ -1025,6 +1042,61 @@ theorem sched3 : SchedN cfg2.P net3 view3.tl evs3 :=
     decide)
 
 example : GoodRunN cfg2 M3 adr3 net3 5 (cEnd cfg2 tok3) evs3 :=
-  n_station_ring_run cfg2 cfg2_ok (by decide) M3 adr3 net3 view3 ninv3 evs3 sched3
+  n_station_ring_run cfg2 cfg2_ok (by decide) M3 adr3 net3 view3 ninv3
+    (by intro st hst; simp only [net3, List.mem_cons, List.mem_nil_iff, or_false] at hst; rcases hst with rfl | rfl | rfl <;> rfl)
+    trivial evs3 sched3
+
+/-! Non-vacuity with application traffic: as above, but station 5 (the holder) has one application whose script
+sends an SDN telegram to address 9 (no reply expected), then an SRD request to station 3 (a master: not answered,
+times out), then declines. -/
+def hSDN : Header := { da := 9, sa := 5, dsap := none, ssap := none, fc := .request .inactive .sdnLow }
+def hSRD : Header := { da := 3, sa := 5, dsap := none, ssap := none, fc := .request .first .srdLow }
+def appsEx : Apps := [[.send hSDN [1, 2], .send hSRD [], .decline]]
+
+theorem appsEx_ok : AnsOk AppP appsEx ∧ ScriptsOk appsEx := by
+  constructor
+  · intro script hs ans ha h pdu he
+    simp only [appsEx, List.mem_singleton] at hs
+    subst hs
+    simp only [List.mem_cons, List.mem_nil_iff, or_false] at ha
+    rcases ha with rfl | rfl | rfl
+    · cases he; exact ⟨by decide, by decide, fun fcb hc => by cases hc⟩
+    · cases he; exact ⟨by decide, by decide, fun fcb hc => by cases hc⟩
+    · cases he
+  · intro script hs ans ha h pdu he
+    simp only [appsEx, List.mem_singleton] at hs
+    subst hs
+    simp only [List.mem_cons, List.mem_nil_iff, or_false] at ha
+    rcases ha with rfl | rfl | rfl
+    · cases he; decide
+    · cases he; decide
+    · cases he
+
+def ns3b' : NetStation := { s := s3b, apps := appsEx, online := true }
+def net3a : Net := { bus := { rate := 500000, txs := [tok3], seen := [0, 70, 68] }, stations := [ns3a, ns3b', ns3c] }
+def view3a : NView := { x := 1, sx := ns3b', pre := [], tr := tok3, ph := .hold 70, H := 236, Lo := 136, tl := 70 }
+
+theorem s3b_inv' : Inv s3b appsEx := by
+  have h := s3b_inv
+  exact ⟨h.addr, h.hsa, h.ring, h.off, h.gap, h.await1, h.await2, fun _ => by decide, fun a d ha => by simp [s3b] at ha,
+    appsEx_ok.2, h.noPassive⟩
+
+theorem ninv3a : NInv cfg2 M3 adr3 net3a view3a := by
+  have h := ninv3
+  exact ⟨h.ring, h.xlt, rfl, ⟨rfl, rfl, appsEx_ok.1, s3b_inv', rfl, rfl, rfl, rfl, ring3_view 5 (by decide), by decide⟩,
+    h.log, h.txs, h.doneX, h.ownX, (fun j hj hjx => by
+      have : j = 0 ∨ j = 2 := by simp only [net3a, view3a, List.length_cons, List.length_nil] at hj hjx; omega
+      rcases this with rfl | rfl
+      · obtain ⟨st, hst, hL⟩ := h.lis 0 (by decide) (by decide)
+        exact ⟨st, hst, hL⟩
+      · obtain ⟨st, hst, hL⟩ := h.lis 2 (by decide) (by decide)
+        exact ⟨st, hst, hL⟩), h.tls, h.tlt, rfl, rfl, h.ph⟩
+
+example : GoodRunA cfg2 M3 adr3 net3a 5 (cEnd cfg2 tok3) 0 evs3 :=
+  n_station_ring_run_apps cfg2 cfg2_ok (by decide) M3 adr3 net3a view3a ninv3a evs3
+    (scheduleN_of_times _ _ _ _ (by
+      show SchedNT 100 3 [0, 70, 68] 70 evs3
+      simp [SchedNT, evs3]
+      decide))
 
 end PV.C01
